@@ -299,6 +299,77 @@ def contracts(rep, regs, model):
               'IMSI registry entry is not a digit range on the MCC or MNC level that leaves room for a subscriber number')
 
 
+def consumer_tables(rep, regs):
+    """A consumer that rejects (or indexes strictly) by a prefix of the number against a module-level constant table
+    `if number[:k] not in TABLE: raise` / `TABLE[number[:k]]` must know every top-level prefix of the registry it reads:
+    otherwise registered entries can never be accepted."""
+    from ..strabs.model import Program
+    from ..common import rel
+    prog = Program()
+    scanned = 0
+    for mn in sorted(prog.mods):
+        m = prog.mods[mn]
+        names = set()
+        for n in ast.walk(m.tree):
+            if isinstance(n, ast.Call) and isinstance(n.func, ast.Attribute) and n.func.attr == 'get' and src(n.func.value) == 'numdb' \
+                    and n.args and isinstance(n.args[0], ast.Constant) and isinstance(n.args[0].value, str):
+                names.add(n.args[0].value)
+        names &= set(regs)
+        if not names:
+            continue
+        scanned += 1
+
+        def table(node):
+            if isinstance(node, ast.Name) and node.id in m.consts and isinstance(m.consts[node.id], (dict, set, frozenset, tuple, list)):
+                keys = set(m.consts[node.id])
+                if keys and all(isinstance(k, str) for k in keys) and len({len(k) for k in keys}) == 1:
+                    return node.id, keys
+            return None, None
+
+        def prefix(node):
+            if isinstance(node, ast.Subscript) and isinstance(node.slice, ast.Slice) and node.slice.lower is None and node.slice.step is None \
+                    and isinstance(node.slice.upper, ast.Constant) and isinstance(node.slice.upper.value, int) and node.slice.upper.value > 0 \
+                    and isinstance(node.value, ast.Name):
+                return node.slice.upper.value
+            return None
+        sites = []
+        for fn in m.funcs.values():
+            if fn.name not in ('validate',) and not any(isinstance(x, ast.Raise) for x in ast.walk(fn)):
+                continue
+            for n in ast.walk(fn):
+                if isinstance(n, ast.If) and isinstance(n.test, ast.Compare) and len(n.test.ops) == 1 and isinstance(n.test.ops[0], ast.NotIn) \
+                        and any(isinstance(b, ast.Raise) for b in n.body):
+                    k, (tn, keys) = prefix(n.test.left), table(n.test.comparators[0])
+                    if k and keys and len(next(iter(keys))) == k:
+                        sites.append((fn, n, k, tn, keys, 'rejects'))
+                if isinstance(n, ast.Subscript) and isinstance(n.ctx, ast.Load) and not isinstance(n.slice, ast.Slice):
+                    k, (tn, keys) = prefix(n.slice), table(n.value)
+                    if k and keys and len(next(iter(keys))) == k:
+                        sites.append((fn, n, k, tn, keys, 'raises KeyError for'))
+        for fn, n, k, tn, keys, verb in sites:
+            for name in sorted(names):
+                reg = regs[name]
+                for e in reg.entries:
+                    if e.depth != 0 or e.length < k:
+                        continue
+                    lo, hi = e.low[:k], e.high[:k]
+                    missing = None
+                    if lo == hi:
+                        missing = None if lo in keys else lo
+                    elif lo.isdigit() and hi.isdigit() and lo.isascii() and hi.isascii():
+                        missing = next((str(v).zfill(k) for v in range(int(lo), int(hi) + 1) if str(v).zfill(k) not in keys), None)
+                    if missing is None:
+                        rep.ok('REG.consumer-table', '%s:%d %s' % (reg.rel, e.line, e.rng), 'prefix known to %s.%s' % (mn.replace('stdnum.', ''), tn))
+                    else:
+                        rep.fail('REG.consumer-table', reg.rel, e.rng, e.text[:100], e.line,
+                                 '%s.%s (line %d) %s every number whose first %d characters are not a key of %s, and %r is not: '
+                                 'no number of this registered entry can be accepted'
+                                 % (mn.replace('stdnum.', ''), fn.name, n.lineno, verb, k, tn, missing))
+    rep.unit('registry consumer modules scanned for prefix tables', scanned)
+    if scanned < 10:
+        raise AnalysisError('only %d registry consumer modules found (expected at least 10)' % scanned)
+
+
 KNOWN_REGISTRIES = ['at/fa', 'at/postleitzahl', 'be/banks', 'cfi', 'cn/loc', 'cz/banks', 'eu/nace', 'gs1_ai', 'iban', 'id/loc', 'imsi',
                     'isbn', 'isil', 'my/bp', 'nz/banks', 'oui', 'us/ein']
 
@@ -344,6 +415,7 @@ def check(tier):
         if n not in KNOWN_REGISTRIES:
             rep.undecide('REG.consumer', regs[n].rel, 'registry without a consumer contract in sa/props/c11.py')
     contracts(rep, regs, model)
+    consumer_tables(rep, regs)
     rep.expect_at_least('REG.line-wellformed', 46000, 'registry lines')
     rep.expect_at_least('REG.consumer-key', 30000, 'consumer key obligations')
     rep.not_decided = ['agreement of the registry contents with the external sources (ISO, IEEE, Wikipedia, ...)',
